@@ -4,6 +4,7 @@ import (
 	"bytes"
 	"encoding/json"
 	"fmt"
+	"io"
 	"strings"
 )
 
@@ -21,7 +22,9 @@ func jsonTreeOfBytes(b []byte) string {
 	if err := jsonTreeValue(dec, &sb); err != nil {
 		return "BAD"
 	}
-	if _, err := dec.Token(); err == nil {
+	// nothing but JSON white space may follow: any other byte (a NUL, a stray letter, a second value)
+	// makes the real decoders fail or behave in ways the token-tree model does not describe
+	if _, err := dec.Token(); err != io.EOF {
 		return "BAD"
 	}
 	return sb.String()
